@@ -10,13 +10,14 @@ Section EvoProofs.
   Variable g0 : G.
   Variable repro : list dna -> G -> Z -> nat -> list Z * G.
   Variable updf : list dna -> G -> nat -> list dna * G.
+  Variable gobs : G -> list Z.
   Variable V : Type.
   Variable vis : G -> V.
   Hypothesis Hupd : forall pop g1 g2 step, vis g1 = vis g2 ->
     fst (updf pop g1 step) = fst (updf pop g2 step) /\ vis (snd (updf pop g1 step)) = vis (snd (updf pop g2 step)).
   Hypothesis Hrep : forall pop g ngen np, vis (snd (repro pop g ngen np)) = vis g.
 
-  Notation E := (Evolution gi size G g0 repro updf).
+  Notation E := (Evolution gi size G g0 repro updf gobs).
   Notation est := (ev_st gi G).
 
   (* what recovery must get right, up to the invisible part of the global state *)
@@ -306,6 +307,18 @@ Section EvoProofs.
     { unfold efold. eapply fold_erel with (k := 0); eauto using erel_refl. eapply evo_reach_fsn; eauto. }
     destruct (erel_trans _ _ _ B (erel_sym _ _ (erel_trans _ _ _ A C))) as (X1 & X2 & X3 & _).
     simpl in *. rewrite X1, X2, X3. reflexivity.
+  Qed.
+
+  (* the part of the global state the update works on (NSGA2: the elites) is recovered as well *)
+  Theorem evolution_vis_rec : forall s h, Reach E anyfed s h -> forall h', HRw h h' ->
+    vis (ev_g _ _ (recover E (init E) h')) = vis (ev_g _ _ s).
+  Proof.
+    intros s h HR h' Hh.
+    pose proof (evo_reach_spec _ _ _ HR) as A.
+    pose proof (evo_recover_fields h') as B.
+    assert (erel (efold h) (efold h')) as C.
+    { unfold efold. eapply fold_erel with (k := 0); eauto using erel_refl. eapply evo_reach_fsn; eauto. }
+    destruct (erel_trans _ _ _ B (erel_sym _ _ (erel_trans _ _ _ A C))) as (_ & _ & _ & X). exact X.
   Qed.
 
   Lemma evolution_meta_pres : meta_pres E.
